@@ -1025,8 +1025,11 @@ class PolyhedralTermList(TermList):  # noqa: WPS338
         assert n == len(b), "n is {} and b is {}".format(n, b)
         if helper_present:
             assert n_h == len(b_help)
-        else:
-            assert len(b_help) == 0
+        elif len(b_help) > 0:
+            # context terms without variables are constant inequalities 0 <= b
+            if np.any(b_help < 0):
+                raise ValueError("The constraints are unsatisfiable")
+            b_help = np.array([])
         if helper_present and m > 0:
             assert m_h == m
         if n == 0:
